@@ -144,6 +144,7 @@ type Unit struct {
 	frameCount int
 	frameSites map[string]int
 	atAsserts map[*ast.CallExpr][]*Clause
+	refMapValue map[string]bool
 }
 
 type engineError struct{ msg string }
@@ -201,6 +202,7 @@ func (u *Unit) heapTerm(st *State, key, sort string) string {
 	name := "H_" + sanitize(key) + "_0"
 	u.reg.declare(name, nil, sort)
 	u.heapSort[key] = sort
+	u.heapWF(key, name, sort, "alloc_0")
 	// the entry state shares initial heap names so that old() agrees
 	st.heap[key] = name
 	if u.entry != nil {
@@ -229,6 +231,7 @@ func (u *Unit) havocHeap(st *State, key string) {
 		// make sure the entry state has the initial name
 		init := "H_" + sanitize(key) + "_0"
 		u.reg.declare(init, nil, sort)
+		u.heapWF(key, init, sort, "alloc_0")
 		if u.entry != nil {
 			if _, ok := u.entry.heap[key]; !ok {
 				u.entry.heap[key] = init
@@ -236,6 +239,80 @@ func (u *Unit) havocHeap(st *State, key string) {
 		}
 	}
 	st.heap[key] = u.reg.fresh("H_"+sanitize(key), sort)
+	if isSymbol(st.alloc) {
+		u.heapWF(key, st.heap[key], sort, st.alloc)
+	}
+}
+
+func isSymbol(t string) bool { return t != "" && !strings.ContainsAny(t, "( ") }
+
+// heapWF: every reference stored in a heap array is allocated (0 <= ref <= alloc).
+func (u *Unit) heapWF(key, name, sort, alloc string) {
+	if !strings.HasPrefix(key, "F:") && !strings.HasPrefix(key, "MV:") {
+		return
+	}
+	if strings.HasPrefix(key, "MV:") {
+		kv := strings.SplitN(key[3:], "|", 2)
+		if kv[1] != "Int" || !u.refMapValue[key] {
+			return
+		}
+		u.reg.axiom(fmt.Sprintf("(forall ((r Int) (k %s)) (! (and (<= 0 (select (select %s r) k)) (<= (select (select %s r) k) %s)) :pattern ((select (select %s r) k))))", kv[0], name, name, alloc, name))
+		return
+	}
+	ft := u.prog.fieldType(key)
+	if ft == nil {
+		return
+	}
+	elem := sort[len("(Array Int ") : len(sort)-1]
+	if u.reg.isSlice(elem) {
+		u.reg.axiom(fmt.Sprintf("(forall ((r Int)) (! (>= (len_%s (select %s r)) 0) :pattern ((select %s r))))", elem, name, name))
+		return
+	}
+	if elem == "Int" && u.isRefType(ft) {
+		u.reg.axiom(fmt.Sprintf("(forall ((r Int)) (! (and (<= 0 (select %s r)) (<= (select %s r) %s)) :pattern ((select %s r))))", name, name, alloc, name))
+		return
+	}
+	// struct-valued field: first-level reference members
+	if si := u.reg.structInfoOf(elem); si != nil {
+		var conj []string
+		for _, f := range si.fields {
+			acc := fmt.Sprintf("(%s_%s (select %s r))", elem, sanitize(f.name), name)
+			if f.sort == "Int" && u.isRefType(f.typ) {
+				conj = append(conj, "(<= 0 "+acc+")", "(<= "+acc+" "+alloc+")")
+			}
+			if u.reg.isSlice(f.sort) {
+				conj = append(conj, "(>= (len_"+f.sort+" "+acc+") 0)")
+			}
+		}
+		if len(conj) > 0 {
+			u.reg.axiom(fmt.Sprintf("(forall ((r Int)) (! %s :pattern ((select %s r))))", and(conj...), name))
+		}
+	}
+}
+
+var fieldTypeCache map[string]types.Type
+
+func (p *Program) fieldType(key string) types.Type {
+	if fieldTypeCache == nil {
+		fieldTypeCache = map[string]types.Type{}
+		for _, pkg := range p.Pkgs {
+			sc := pkg.Types.Scope()
+			for _, n := range sc.Names() {
+				tn, ok := sc.Lookup(n).(*types.TypeName)
+				if !ok {
+					continue
+				}
+				st, ok := tn.Type().Underlying().(*types.Struct)
+				if !ok {
+					continue
+				}
+				for i := 0; i < st.NumFields(); i++ {
+					fieldTypeCache["F:"+typeKey(tn.Type())+"."+st.Field(i).Name()] = st.Field(i).Type()
+				}
+			}
+		}
+	}
+	return fieldTypeCache[key]
 }
 
 // heap keys:  F:<struct key>.<field>   MD:<K sort>   MV:<K sort>|<V sort>   C:<sort>   G:<pkg.var>
@@ -326,7 +403,7 @@ func (u *Unit) isRefType(t types.Type) bool {
 		return true
 	}
 	if _, ok := types.Unalias(t).(*types.TypeParam); ok {
-		return true
+		return u.reg.sortOf(t) == "Int"
 	}
 	return false
 }
